@@ -1013,16 +1013,17 @@ def h_argmax(a, axis=None, **kw):
     return SBV(z3.simplify(bi), real_np.int64)
 
 
-def _count_terms(vals):
-    """count_i = number of j with v_j == v_i (z3 Int terms)."""
+def _count_terms(vals, mult=None):
+    """count_i = number of j with v_j == v_i (z3 Int terms); mult = multiplicity of each representative."""
     n = len(vals)
+    mult = mult or [1] * n
     eq = [[None] * n for _ in range(n)]
     for i in range(n):
         for j in range(i + 1, n):
             c = elem_eq(vals[i], vals[j])
             c = z3.BoolVal(c) if isinstance(c, bool) else c
             eq[i][j] = eq[j][i] = c
-    return [z3.Sum([z3.IntVal(1)] + [z3.If(eq[i][j], 1, 0) for j in range(n) if j != i]) for i in range(n)]
+    return [z3.Sum([z3.IntVal(mult[i])] + [z3.If(eq[i][j], mult[j], 0) for j in range(n) if j != i]) for i in range(n)]
 
 
 class LazyUniqueBase(SArray):
@@ -1074,8 +1075,16 @@ class _UniqueState:
     def mode(self):
         """labels[argmax(counts)] by the contracts of unique (sorted labels) and argmax
         (first maximum): the smallest label among those with the maximal count."""
-        vals = self.vals
-        cnts = _count_terms(vals)
+        vals, seen, mult = [], {}, []
+        for v in self.vals:
+            ze = v.__zexpr__()
+            key = (type(v).__name__, ze.get_id() if isinstance(ze, z3.ExprRef) else repr(ze))
+            if key not in seen:
+                seen[key] = len(vals)
+                vals.append(v)
+                mult.append(0)
+            mult[seen[key]] += 1
+        cnts = _count_terms(vals, mult)
         best, bc = vals[0], cnts[0]
         for v, c in zip(vals[1:], cnts[1:]):
             better = z3.Or(c > bc, z3.And(c == bc, elem_lt(v, best)))
@@ -1091,46 +1100,56 @@ def forked_unique(vals, dtype):
     if n == 0:
         e = SArray(real_np.empty(0, dtype=object), dtype)
         return e, SArray(real_np.empty(0, dtype=object), real_np.int64), SArray(real_np.empty(0, dtype=object), real_np.int64)
+    # syntactically identical terms are one representative (keeps large padded blocks cheap)
+    reps, mult, rep_of, seen = [], [], [], {}
+    for v in vals:
+        ze = v.__zexpr__()
+        key = (type(v).__name__, ze.get_id() if isinstance(ze, z3.ExprRef) else repr(ze))
+        if key not in seen:
+            seen[key] = len(reps)
+            reps.append(v)
+            mult.append(0)
+        rep_of.append(seen[key])
+        mult[seen[key]] += 1
+    m = len(reps)
+
+    def eqz(a, b):
+        c = elem_eq(a, b)
+        return z3.BoolVal(c) if isinstance(c, bool) else c
     first = []
-    for i in range(n):
-        cs = []
-        for j in range(i):
-            c = elem_eq(vals[i], vals[j])
-            cs.append(z3.BoolVal(not c) if isinstance(c, bool) else z3.Not(c))
+    for i in range(m):
+        cs = [z3.Not(eqz(reps[i], reps[j])) for j in range(i)]
         first.append(z3.And(cs) if cs else z3.BoolVal(True))
     cnt = z3.Sum([z3.If(f, 1, 0) for f in first])
     k = None
-    for kk in range(1, n + 1):
-        if kk == n or ctx.decide(cnt == kk):
+    for kk in range(1, m + 1):
+        if kk == m or ctx.decide(cnt == kk):
             k = kk
-            if kk == n:
+            if kk == m:
                 ctx.assume(cnt == kk)
             break
     tag = ctx.fresh_name("lut")
     lut = [fresh_elem(dtype, f"{tag}_{j}", exact_int=isinstance(vals[0], SIV)) for j in range(k)]
     for j in range(k - 1):
         ctx.assume(elem_lt(lut[j], lut[j + 1]))
-
-    def eqz(a, b):
-        c = elem_eq(a, b)
-        return z3.BoolVal(c) if isinstance(c, bool) else c
-    for v in vals:
+    for v in reps:
         ctx.assume(z3.Or([eqz(v, l) for l in lut]))
     for l in lut:
-        ctx.assume(z3.Or([eqz(v, l) for v in vals]))
-    inv = []
-    for v in vals:
+        ctx.assume(z3.Or([eqz(v, l) for v in reps]))
+    inv_rep = []
+    for v in reps:
         e = z3.BitVecVal(k - 1, 64)
         for j in reversed(range(k - 1)):
             e = z3.If(eqz(v, lut[j]), z3.BitVecVal(j, 64), e)
-        inv.append(SBV(z3.simplify(e), real_np.int64))
+        inv_rep.append(SBV(z3.simplify(e), real_np.int64))
+    inv = [inv_rep[r] for r in rep_of]
     cs = []
     for j in range(k):
-        if n == 1:
-            cs.append(SBV.const(1, real_np.int64))
+        if m == 1:
+            cs.append(SBV.const(n, real_np.int64))
         else:
-            cs.append(SBV(z3.simplify(z3.Sum([z3.If(eqz(v, lut[j]), z3.BitVecVal(1, 64), z3.BitVecVal(0, 64))
-                                              for v in vals])), real_np.int64))
+            cs.append(SBV(z3.simplify(z3.Sum([z3.If(eqz(v, lut[j]), z3.BitVecVal(mu, 64), z3.BitVecVal(0, 64))
+                                              for v, mu in zip(reps, mult)])), real_np.int64))
     return (SArray.from_elems(lut, dtype), SArray.from_elems(inv, real_np.int64),
             SArray.from_elems(cs, real_np.int64))
 
